@@ -3,7 +3,13 @@ EXTENDS Traj, Json, IOUtils
 VARIABLE l
 Tr == ndJsonDeserialize(IOEnv.TRACE)
 \* a request for which the generator reports duration 0 (not planned) carries no claim
+\* far-scale requests (phases many orders of magnitude apart): boundary facts only, as order-coded doubles, exactly:
+\* before the start the planner holds (p0, recorded v0); at and after the reported end (p1, recorded v1)
+FarOK(e) == \A i \in 1..Len(e.samples) :
+               LET s == e.samples[i] IN
+               IF s.after = 1 THEN s.p = e.p1 /\ s.v = e.v1 ELSE s.p = e.p0 /\ s.v = e.v0
 Accept(e) == IF e.planned = 0 THEN TRUE
+             ELSE IF e.f \in {"trapfar", "bellfar"} THEN FarOK(e)
              ELSE IF e.f = "trap" THEN TrapOK(e) ELSE BellOK(e)
 TraceInit == l = 1
 Step == /\ l <= Len(Tr)
